@@ -10,6 +10,19 @@ use rcgen::*;
 use serde_json::{json, Value};
 use std::collections::HashMap;
 
+/// harness implementation of the public `PublicKeyData` trait
+pub struct FakePub {
+	pub raw: Vec<u8>,
+}
+impl PublicKeyData for FakePub {
+	fn der_bytes(&self) -> &[u8] {
+		&self.raw
+	}
+	fn algorithm(&self) -> &SignatureAlgorithm {
+		&PKCS_ED25519
+	}
+}
+
 pub struct KeyPool {
 	pub keys: HashMap<String, Vec<LiveKey>>,
 	pub per_slot: usize,
@@ -211,6 +224,33 @@ pub fn run_case(case: &Value, idx: usize, seed: u64, pool: &mut KeyPool, out: &m
 		}
 	};
 
+	// a public key that is not backed by any key pair: arbitrary bytes behind the public `PublicKeyData`
+	// trait, searched so that SHA-256(raw key) starts with the two octets the case asks for (C05)
+	let mut fake: Option<FakePub> = None;
+	let mut fake_json = Value::Null;
+	if pub_src == "fakepub" && !is_self {
+		let want = bytes_of(&case["hash2"]);
+		let mut raw = rng.bytes(32);
+		let mut tries = 0u64;
+		loop {
+			let d = ring::digest::digest(&ring::digest::SHA256, &raw);
+			if want.len() < 2 || (d.as_ref()[0] == want[0] && d.as_ref()[1] == want[1]) {
+				break;
+			}
+			tries += 1;
+			let n = tries.to_le_bytes();
+			raw[..8].copy_from_slice(&n);
+			if tries > 50_000_000 {
+				break;
+			}
+		}
+		let mut spki = crate::der::unhex("302a300506032b6570032100");
+		spki.extend_from_slice(&raw);
+		let info = KeyInfo { h: "fake".into(), alg: "ed25519".into(), ktype: "ed25519".into(), pkcs8: vec![], spki, raw_pub: raw.clone(), src: "fakepub".into() };
+		fake_json = key_json(&info);
+		fake_json["via"] = json!("PublicKeyData");
+		fake = Some(FakePub { raw });
+	}
 	// alternative public key sources
 	let mut spki_obj: Option<SubjectPublicKeyInfo> = None;
 	let mut csr_pk: Option<PublicKey> = None;
@@ -235,7 +275,7 @@ pub fn run_case(case: &Value, idx: usize, seed: u64, pool: &mut KeyPool, out: &m
 
 	let args = json!({
 		"grp": sval(case, "grp"), "params": p, "self": is_self, "pubSrc": pub_src,
-		"subjectKey": key_args(subject), "signerKey": key_args(signer), "issuer": issuer_json,
+		"subjectKey": if fake.is_some() { fake_json.clone() } else { key_args(subject) }, "signerKey": key_args(signer), "issuer": issuer_json,
 		"signerFails": false,
 	});
 
@@ -246,6 +286,7 @@ pub fn run_case(case: &Value, idx: usize, seed: u64, pool: &mut KeyPool, out: &m
 		} else {
 			let ic = issuer_obj.as_ref().unwrap();
 			match pub_src.as_str() {
+				"fakepub" => params.signed_by(fake.as_ref().unwrap(), ic, &signer.kp),
 				"spki" => params.signed_by(spki_obj.as_ref().unwrap(), ic, &signer.kp),
 				"csr" => params.signed_by(csr_pk.as_ref().unwrap(), ic, &signer.kp),
 				_ => params.signed_by(&subject.kp, ic, &signer.kp),
